@@ -300,6 +300,8 @@ class State:
         self.effects = []      # storage-relevant effects in order
         self.nchunks = 0
         self.fresh = 0
+        self.pending = None
+        self.pend_i = 0
 
     def sym(self, base):
         self.fresh += 1
@@ -323,8 +325,9 @@ MAXCHUNKS = 3
 
 
 class Interp:
-    def __init__(self, prog, max_chunks=MAXCHUNKS):
+    def __init__(self, prog, max_chunks=MAXCHUNKS, dispatch=None):
         self.prog = prog
+        self.dispatch = dispatch
         self.paths = []
         self.max_chunks = max_chunks
         self.steps = 0
@@ -508,6 +511,12 @@ class Interp:
                 return Agg(ty, var, table[var], args)
         if re.match(r'^[A-Z]\w*$', rv):
             return Sym(rv)  # unit struct (RangeFull ...)
+        mcl = re.match(r'^(\{closure@[^}]*\}) \{ (.*) \}$', rv)
+        if mcl:
+            # a capturing closure: its environment, fields in capture order
+            vals = [self.operand(fr, fld.split(':', 1)[1]) for fld in split_top(mcl.group(2))]
+            a = Agg('closure', mcl.group(1), 0, vals)
+            return a
         ms_ = re.match(r'^([\w:]+) \{ (.*) \}$', rv)
         if ms_:
             # struct literal: fields in declaration order
@@ -535,6 +544,19 @@ class Interp:
                     'AddWithOverflow': lambda: Agg('tuple', 'tuple', 0, [x + y, False]), 'SubWithOverflow': lambda: Agg('tuple', 'tuple', 0, [x - y, x < y])}[op]()
         if any(not isinstance(x, (int, bool, z3.ExprRef)) for x in a):
             raise Unsupported('arithmetic on %r' % (a,))
+        bvs = [x for x in a if isinstance(x, z3.BitVecRef)]
+        if bvs:
+            # machine integers kept at their width (engine I: counters, ids): unsigned semantics
+            w = bvs[0].size()
+            x = a[0] if isinstance(a[0], z3.BitVecRef) else z3.BitVecVal(a[0], w)
+            y = (a[1] if isinstance(a[1], z3.BitVecRef) else z3.BitVecVal(a[1], w)) if len(a) > 1 else None
+            tab = {'Eq': lambda: x == y, 'Ne': lambda: x != y, 'Add': lambda: x + y, 'Sub': lambda: x - y,
+                   'Gt': lambda: z3.UGT(x, y), 'Ge': lambda: z3.UGE(x, y), 'Lt': lambda: z3.ULT(x, y), 'Le': lambda: z3.ULE(x, y),
+                   'AddWithOverflow': lambda: Agg('tuple', 'tuple', 0, [x + y, z3.ULT(x + y, x)]),
+                   'SubWithOverflow': lambda: Agg('tuple', 'tuple', 0, [x - y, z3.ULT(x, y)])}
+            if op not in tab:
+                raise Unsupported('bit-vector operation ' + op)
+            return tab[op]()
         x = z(a[0])
         y = z(a[1]) if len(a) > 1 else None
         if op == 'AddWithOverflow':
@@ -585,12 +607,22 @@ class Interp:
         val = self.rvalue(st, fr, m.group(2))
         self.cell_of(fr, self.parse_place(m.group(1))).v = val
 
+    def _replayed(self, st):
+        """decisions already taken inside the terminator being (re-)executed are replayed in order"""
+        q = getattr(st, 'pending', None)
+        if q and st.pend_i < len(q):
+            label, c = q[st.pend_i]
+            st.pend_i += 1
+            if label:
+                st.labels = st.labels + [label]
+            return True, c
+        return False, None
+
     def choose(self, st, alts):
         """environment nondeterminism: alts = [(label, value)]; first visit forks, the re-execution
-        in each alternative consumes the pending choice"""
-        if getattr(st, 'pending', None) is not None:
-            c = st.pending[0]
-            st.pending = None
+        in each alternative replays the decisions taken so far"""
+        hit, c = self._replayed(st)
+        if hit:
             return c
         if len(alts) == 1:
             if alts[0][0]:
@@ -602,9 +634,8 @@ class Interp:
         """fork on a z3 condition, pruned by the solver; returns the python bool for this state"""
         if isinstance(cond, bool):
             return cond
-        if getattr(st, 'pending', None) is not None:
-            c = st.pending[0]
-            st.pending = None
+        hit, c = self._replayed(st)
+        if hit:
             st.cons = st.cons + [cond if c else z3.Not(cond)]
             return c
         t = self.feasible(st.cons + [cond])
@@ -691,12 +722,19 @@ class Interp:
             r = self.call(st, stack, fr, dest, callee, args, ret_bb)
             if isinstance(r, str) and r == 'PUSHED':
                 return 'CONTINUE_IN_CALLEE'
+            if isinstance(r, tuple) and len(r) == 2 and r[0] == 'PANIC':
+                return ('END', 'panic', r[1])
             self.cell_of(fr, dest).v = r
             return ret_bb
+        if re.search(r'\) -> unwind (continue|unreachable|terminate)', t) or re.search(r'\) -> \[unwind: bb\d+\]$', t) or re.search(r'\) -> unwind: bb\d+$', t):
+            # a call that does not return: panic!/unreachable!/process::abort
+            return ('END', 'panic', t[:80])
         raise Unsupported('terminator ' + t[:120])
 
     # the call dispatcher lives in a subclass-free table below
     def call(self, st, stack, fr, dest, callee, args, ret_bb):
+        if self.dispatch is not None:
+            return self.dispatch(self, st, stack, fr, dest, callee, args, ret_bb)
         from henv import dispatch  # late import: environment model
         return dispatch(self, st, stack, fr, dest, callee, args, ret_bb)
 
@@ -719,20 +757,22 @@ def run_stack_patch():
                 snap = (st.effects, st.cons, st.nchunks, st.labels)
                 nxt = self.terminator(st, stack, func, fr, bb, term)
             except Fork as fk:
-                # the statement is re-executed in every alternative: undo its partial effects
+                # the statement is re-executed in every alternative: undo its partial effects and
+                # replay the decisions it had already taken, then the new one
                 if 'snap' in dir():
                     st.effects, st.cons, st.nchunks, st.labels = snap
+                prefix = list(getattr(st, 'pending', None) or [])
                 for label, choice in fk.alts[1:]:
                     st2, stack2 = copy.deepcopy((st, stack))
-                    st2.pending = (choice,)
-                    if label:
-                        st2.labels = st2.labels + [label]
+                    st2.pending = prefix + [(label, choice)]
+                    st2.pend_i = 0
                     work.append((st2, stack2))
                 label, choice = fk.alts[0]
-                st.pending = (choice,)
-                if label:
-                    st.labels = st.labels + [label]
+                st.pending = prefix + [(label, choice)]
+                st.pend_i = 0
                 continue
+            st.pending = None
+            st.pend_i = 0
             if nxt == 'CONTINUE_IN_CALLEE':
                 continue
             if nxt == 'RETURN':
@@ -743,6 +783,8 @@ def run_stack_patch():
                 func2, fr2, dest, ret_bb = stack.pop()
                 if dest[0] == 'wrap_err':
                     self.cell_of(fr2, dest[1]).v = err(rv)
+                elif dest[0] == 'cont':
+                    self.cell_of(fr2, dest[1]).v = dest[2](rv)
                 elif dest[0] == 'filter_keep':
                     self.cell_of(fr2, dest[1]).v = dest[2] if rv is True else NONE()
                 else:
